@@ -248,41 +248,111 @@ def _normalised_before(S, caller, var, call):
 
 # ------------------------------------------------------------------ D3
 
+def others_none(g, ev):
+    """bindings of the deadline variable to None (the no-timeout placeholder)"""
+    return [n for n in g.nodes if n.kind == 'stmt' and isinstance(n.ast, ast.Assign) and ev in assigned_names(n.ast) and is_const(n.ast.value, None)]
+
+
 def check_deadline_loop(c, repo, f, read, expire_call):
+    """One overall deadline.  The names are found from their roles, not from their spelling: P is the call's `timeout` parameter,
+    R the variable that carries the remaining time (what the read is given / what the expiry test compares; P itself or a copy
+    `R = P` made before the loop), E the deadline `time.time() + P`.  `X is None` tests on P, R and E all mean "no deadline"
+    (E is None exactly when P is: its only other binding is `E = None` under `P is None`)."""
     g = f.cfg
-    var = 'timeout'
+    P = 'timeout'
     loops = [n for n in iter_nodes(f.node) if isinstance(n, ast.While)]
     c.need(len(loops) == 1, '%s: expected one while loop' % f.qual)
     loop = loops[0]
+    hdr = g.node_of_stmt(loop)
+
+    def in_loop(n):
+        return any(p is loop for p in parent_chain(n.ast if hasattr(n, 'ast') else n))
+    reads = [n for n, k in cfg_nodes_with_call(f, lambda k: callee_last(k) == read)] if read else []
+    R = None
+    absolute = None          # (test node, deadline name): the loop compares the clock with the deadline itself, there is no remaining-time variable
+    cands = set()
+    for t in g.nodes:
+        if t.kind == 'test' and t.ast is not None and any(p is loop for p in parent_chain(t.stmt)):
+            for x in ast.walk(t.ast):
+                for l_, op_, r_ in cmp_views(x) if isinstance(x, ast.Compare) else ():
+                    if isinstance(l_, ast.Name) and op_ in (ast.Lt, ast.LtE, ast.Gt, ast.GtE) and isinstance(const_value(r_, None), (int, float)):
+                        cands.add(l_.id)
+                    if norm(l_) == 'time.time()' and op_ in (ast.Gt, ast.GtE) and isinstance(r_, ast.Name):
+                        absolute = (t, r_.id)
+    if read:
+        c.need(len(reads) == 1, 'read call not found')
+        rk = [k for k in node_calls(reads[0]) if callee_last(k) == read][0]
+        ra = call_arg(rk, 'timeout', 1)
+        if isinstance(ra, ast.Name):
+            R = ra.id
+        else:
+            pure_other = ra is not None and not any(isinstance(x, ast.Name) and x.id in cands | {P} for x in ast.walk(ra))
+            c.need(pure_other, '%s: the timeout given to the read is an expression the rule cannot follow: %s' % (f.qual, norm(rk)))
+            c.bad(f, rk, 'the remaining time (not some other value) is what the read is given', witness=norm(rk), kind='ast', tag='read-gets-remaining')
+            c.need(len(cands) == 1, '%s: expiry test on the remaining time not found in the loop' % f.qual)
+            R = list(cands)[0]
+            ra = ast.Name(id=R, ctx=ast.Load())
+    elif len(cands) == 1:
+        R = cands.pop()
+    else:
+        c.need(absolute is not None and not cands, '%s: expiry test on the remaining time not found in the loop' % f.qual)
+        R = P
+    var = R
+    if R != P:
+        outs = [n for n in g.nodes if n.kind == 'stmt' and R in assigned_names(n.ast) and not in_loop(n)]
+        ok = len(outs) == 1 and isinstance(outs[0].ast, ast.Assign) and is_name(outs[0].ast.value, P) and g.dominated_by(hdr, {outs[0]})[0] \
+            and not [n for n in g.nodes if n.kind == 'stmt' and P in assigned_names(n.ast) and g.path(outs[0], {n}, skip_labels=('exc',), include_start=False)]
+        c.check(ok, f, outs[0].ast if outs else loop, 'the remaining time starts as the timeout of the call', witness=str([norm(n.ast) for n in outs]), kind='ast', tag='remaining-init')
     ends = [n for n in g.nodes if n.kind == 'stmt' and isinstance(n.ast, ast.Assign) and isinstance(n.ast.value, ast.BinOp)
-            and isinstance(n.ast.value.op, ast.Add) and 'time.time()' in norm(n.ast.value) and is_name(n.ast.value.left if norm(n.ast.value.right) == 'time.time()' else n.ast.value.right, var)]
+            and isinstance(n.ast.value.op, ast.Add) and 'time.time()' in norm(n.ast.value)
+            and (is_name(n.ast.value.left if norm(n.ast.value.right) == 'time.time()' else n.ast.value.right, P) or
+                 (not in_loop(n) and is_name(n.ast.value.left if norm(n.ast.value.right) == 'time.time()' else n.ast.value.right, R)))]
     c.need(len(ends) >= 1, '%s: end_time = time.time() + timeout not found' % f.qual)
     c.check(len(ends) == 1, f, ends[-1].ast, 'the deadline is computed exactly once', kind='ast', tag='deadline-once')
     en = ends[0]
     ev = en.ast.targets[0].id
-    inloop = any(p is loop for p in parent_chain(en.ast))
+    inloop = in_loop(en)
     c.check(not inloop, f, en.ast, 'the deadline is computed before the loop (not pushed forward by every iteration)',
             witness='assignment sits inside the while loop' if inloop else None, kind='ast', tag='deadline-outside')
     # (a placeholder `end_time = None` for the no-timeout case, outside the loop, does not move anything)
     others = [n for n in g.nodes if n.kind == 'stmt' and ev in assigned_names(n.ast) and n is not en and
-              not (isinstance(n.ast, ast.Assign) and is_const(n.ast.value, None) and not any(p is loop for p in parent_chain(n.ast))
-                   and ('%s is None' % var, True) in conditions(g, n))]
+              not (isinstance(n.ast, ast.Assign) and is_const(n.ast.value, None) and not in_loop(n)
+                   and (('%s is None' % P, True) in conditions(g, n) or ('%s is None' % R, True) in conditions(g, n) or
+                        (g.dominated_by(en, {n})[0] and g.path(en, {n}, skip_labels=('exc',), include_start=False) is None)))]
     c.check(not others, f, others[0].ast if others else None, 'the deadline is never moved afterwards', kind='ast', tag='deadline-fixed')
+    # the deadline exists whenever there is a timeout: it is computed under no condition or under `timeout is not None` only
+    ec = set(conditions(g, en)) - {('%s is None' % P, False), ('%s is None' % R, False)}
+    c.check(not ec, f, en.ast, 'the deadline is computed whenever the call has a timeout (0 included)', witness='computed only under %s' % sorted(ec) if ec else None,
+            kind='path', tag='deadline-always')
+
+    def no_deadline_tests():
+        out = []
+        for x in {P, R, ev}:
+            out += none_tests(g, x)
+        return out
+    if absolute is not None and not read and not [n for n in g.nodes if n.kind == 'stmt' and var in assigned_names(n.ast) and in_loop(n)]:
+        t, dn = absolute
+        c.check(dn == ev, f, t.ast, 'the clock is compared with the deadline of this call', witness=norm(t.ast), kind='ast', tag='expiry-deadline')
+        # the comparison is skipped only when there is no deadline
+        ok = any(t in guard_region(g, t2, other(lab)) for t2, lab in no_deadline_tests()) or not others_none(g, ev)
+        c.check(ok, f, t.ast, 'the deadline test is skipped only for timeout=None', kind='path', tag='recompute-guard')
+        reg = holds_region(g, t, True)
+        rets = [n for n in reg if n.kind == 'stmt' and isinstance(n.ast, ast.Return) and is_const(n.ast.value, False)]
+        c.check(bool(rets), f, t.ast, 'an expired deadline returns False', kind='path', tag='expiry-outcome')
+        return
     # recompute
-    rec = [n for n in g.nodes if n.kind == 'stmt' and isinstance(n.ast, ast.Assign) and var in assigned_names(n.ast)
-           and any(p is loop for p in parent_chain(n.ast))]
+    rec = [n for n in g.nodes if n.kind == 'stmt' and isinstance(n.ast, ast.Assign) and var in assigned_names(n.ast) and in_loop(n)]
     good = [n for n in rec if lin(n.ast.value, f, keep=(ev, var)) == Lin(0, {ev: 1, 'time.time()': -1})]
     c.check(len(rec) == 1 and len(good) == 1, f, rec[0].ast if rec else loop,
-            'inside the loop timeout is re-assigned only as end_time - time.time()',
+            'inside the loop the remaining time is re-assigned only as <deadline> - time.time()',
             witness=str([norm(n.ast) for n in rec]), kind='alg', tag='recompute')
-    hdr = g.node_of_stmt(loop)
-    reads = [n for n, k in cfg_nodes_with_call(f, lambda k: callee_last(k) == read)] if read else []
-    if read:
-        c.need(len(reads) == 1, 'read call not found')
     if good:
         rn = good[0]
         # guarded by timeout is not None
-        guards = [(t, lab) for t, lab in none_tests(g, var) if rn in guard_region(g, t, other(lab))]
+        guards = [(t, lab) for t, lab in no_deadline_tests() if rn in guard_region(g, t, other(lab))]
+        extra = set(conditions(g, rn)) - set(conditions(g, hdr)) - set(('%s is None' % x, False) for x in (P, R, ev))
+        extra = set(e_ for e_ in extra if not any(e_ in expand_condition(t.ast, v_) for t in g.nodes if t.kind == 'test' and t.ast is not None
+                                                 and not any(p is loop for p in parent_chain(t.stmt)) for v_ in (True, False)))
         c.check(bool(guards), f, rn.ast, 'the recomputation is skipped only for timeout=None', kind='path', tag='recompute-guard')
         if read:
             rd = reads[0]
@@ -291,21 +361,19 @@ def check_deadline_loop(c, repo, f, read, expire_call):
             ok, p = g.must_pass(rd, {rd}, {rn}, skip_labels=('exc',), through_edges=nones)
             c.check(ok, f, rn.ast, 'after every read the remaining time is recomputed before the next read',
                     witness='path: ' + g.describe_path(p) if p else None, tag='recompute-every-iteration')
-            k = [k for k in node_calls(rd) if callee_last(k) == read][0]
-            c.check(len(k.args) >= 2 and is_name(k.args[1], var) or any(kw.arg == 'timeout' and is_name(kw.value, var) for kw in k.keywords),
-                    f, k, 'the remaining time (not the original timeout) is what the read is given', witness=norm(k), kind='ast', tag='read-gets-remaining')
+            c.check(is_name(ra, var), f, rk, 'the remaining time (not the original timeout) is what the read is given', witness=norm(rk), kind='ast', tag='read-gets-remaining')
     # expiry test
     exp = [t for t in g.nodes if t.kind == 'test' and any(p is loop for p in parent_chain(t.stmt)) and
            any(isinstance(x, ast.Compare) and is_name(x.left, var) and isinstance(x.ops[0], (ast.Lt, ast.LtE, ast.Gt, ast.GtE))
                for x in ast.walk(t.ast))]
-    c.need(len(exp) == 1, '%s: expiry test on timeout not found in the loop' % f.qual)
+    c.need(len(exp) == 1, '%s: expiry test on the remaining time not found in the loop' % f.qual)
     t = exp[0]
     cmp_ = [x for x in ast.walk(t.ast) if isinstance(x, ast.Compare) and is_name(x.left, var)
             and isinstance(x.ops[0], (ast.Lt, ast.LtE, ast.Gt, ast.GtE))][0]
     strict = isinstance(cmp_.ops[0], ast.Lt) and is_const(cmp_.comparators[0], 0)
     c.check(strict, f, t.ast, 'expired means remaining < 0 strictly: timeout=0 still performs one poll', witness=norm(cmp_), kind='alg', tag='expiry-strict')
     if read:
-        ok, p = g.must_pass(hdr, set(reads), {t}, skip_labels=('exc',), through_edges=set(none_tests(g, var)))
+        ok, p = g.must_pass(hdr, set(reads), {t}, skip_labels=('exc',), through_edges=set(no_deadline_tests()))
         c.check(ok, f, t.ast, 'the expiry test precedes the read in every iteration (unless timeout is None)',
                 witness='path: ' + g.describe_path(p) if p else None, tag='expiry-before-read')
         reg = guard_region(g, t, 'true')
@@ -700,6 +768,7 @@ def check_socket_timeout(c, repo, restore=True):
 
 
 MUTANTS = [
+    ('waitnoecho-deadline-truthy', 'pty_spawn', '        if timeout is not None:\n            end_time = time.time() + timeout\n        while True:\n            if not self.getecho():\n                return True\n            if timeout is not None and timeout < 0:\n                return False\n            if timeout is not None:\n                timeout = end_time - time.time()\n            time.sleep(0.1)\n', '        end_time = time.time() + timeout if timeout else None\n        while self.getecho():\n            if end_time is not None and time.time() > end_time:\n                return False\n            time.sleep(0.1)\n        return True\n', 'D3'),
     ('expect_list-no-norm', 'spawnbase', "        if timeout == -1:\n            timeout = self.timeout\n        if 'async' in kw:\n            async_ = kw.pop('async')\n        if kw:\n            raise TypeError(\"Unknown keyword arguments: {}\".format(kw))\n\n        exp = Expecter(self, searcher_re(pattern_list), searchwindowsize)",
      "        if 'async' in kw:\n            async_ = kw.pop('async')\n        if kw:\n            raise TypeError(\"Unknown keyword arguments: {}\".format(kw))\n\n        exp = Expecter(self, searcher_re(pattern_list), searchwindowsize)", 'D1'),
     ('expect_loop-no-norm', 'spawnbase', "        if timeout == -1:\n            timeout = self.timeout\n        exp = Expecter(self, searcher, searchwindowsize)", "        exp = Expecter(self, searcher, searchwindowsize)", 'D1'),
@@ -731,6 +800,8 @@ MUTANTS = [
     ('prompt-no-norm', 'replwrap', "        return self.child.expect_exact([self.prompt, self.continuation_prompt],\n                                       timeout=timeout, async_=async_)", "        end = time.time() + timeout\n        return self.child.expect_exact([self.prompt, self.continuation_prompt],\n                                       timeout=timeout, async_=async_)", 'D1'),
 ]
 PRESERVING = [
+    ('waitnoecho-absolute-deadline', 'pty_spawn', '        if timeout is not None:\n            end_time = time.time() + timeout\n        while True:\n            if not self.getecho():\n                return True\n            if timeout is not None and timeout < 0:\n                return False\n            if timeout is not None:\n                timeout = end_time - time.time()\n            time.sleep(0.1)\n', '        end_time = None if timeout is None else time.time() + timeout\n        while self.getecho():\n            if end_time is not None and time.time() > end_time:\n                return False\n            time.sleep(0.1)\n        return True\n'),
+    ('waitnoecho-remaining-copy', 'pty_spawn', '        if timeout is not None:\n            end_time = time.time() + timeout\n        while True:\n            if not self.getecho():\n                return True\n            if timeout is not None and timeout < 0:\n                return False\n            if timeout is not None:\n                timeout = end_time - time.time()\n            time.sleep(0.1)\n', '        remaining = timeout\n        deadline = None\n        if timeout is not None:\n            deadline = time.time() + timeout\n        while self.getecho():\n            if remaining is not None and remaining < 0:\n                return False\n            if deadline is not None:\n                remaining = deadline - time.time()\n            time.sleep(0.1)\n        return True\n'),
     ('norm-attr-alias', 'fdpexpect', "            if timeout == -1:\n                timeout = self.timeout\n            rlist", "            if timeout == -1:\n                timeout = self.timeout\n            unused = timeout\n            rlist"),
     ('delay-guard-truthy', 'expect', "                if self.spawn.delayafterread is not None:\n                    time.sleep(self.spawn.delayafterread)", "                if self.spawn.delayafterread:\n                    time.sleep(self.spawn.delayafterread)"),
 ]
